@@ -165,7 +165,7 @@ PROPS = {
              "continuations; on PID 0 and on a PMT PID): live heap after the whole stream <= live heap after its first quarter + 16 KiB; distinct = distinct case lines",
         trusted=["harness/src/quiet.rs: counting GlobalAlloc wrapper and the allocation-free recording application",
                  "Vec's capacity policy, FixedBitSet's allocation and the system allocator are runtime behaviour outside the model (sampled)"],
-        assumptions=["no logger is installed (warn! formats nothing)", "PARTIAL: allocation counts and slice addresses are measured on generated streams, not proved"],
+        assumptions=["the installed logger is enabled at every level but formats nothing (the log macros' arguments are evaluated, nothing is allocated)", "PARTIAL: allocation counts and slice addresses are measured on generated streams, not proved"],
     ),
     "C01": dict(
         shrink=True,
